@@ -562,7 +562,24 @@ def run(repo: Repo, chk: Check, thorough: bool = False) -> None:
     chk.ob('R15.10', f'{COL}._colorize_ast_re :: a call with a ** argument is not rendered from the bound arguments', bool(kwtest),
            'handed to the generic call renderer' if kwtest else
            '`re.compile(r"[a-z]+", **OPTIONS)` is displayed as `re.compile(r"[a-z]+")`: the options disappear and nothing marks the value as incomplete', cre.loc)
-    chk.require('R15.10', 6)
+    # expression classes without a dedicated branch are written by astor.  Two of astor's visit methods do not write what was read (confirmed by
+    # the hunters against the interpreter): visit_JoinedStr quotes the source of the replacement fields as if it were literal text (`f'{"\n".join(N)}'`
+    # -> doubled backslashes; a set display becomes escaped braces), visit_Slice gives the bounds a precedence below Tuple (`G[(0, 0):(2, 2)]` ->
+    # `G[0, 0:2, 2]`).  The fallback has to go through a generator class that overrides both
+    gen = repo.func(f'{COL}._colorize_ast_generic')
+    ts = [c for c in calls_in(gen) if call_name(c) == 'to_source']
+    if not ts:
+        raise AnalysisError('R15.10: _colorize_ast_generic no longer calls astor.to_source')
+    for c in ts:
+        kw = next((k.value for k in c.keywords if k.arg == 'source_generator_class'), None)
+        klass = repo.classes.get(f'{gen.mod.name}.{kw.id}') if isinstance(kw, ast.Name) else None
+        have = set(klass.methods) if klass is not None else set()
+        missing = [m_ for m_ in ('visit_JoinedStr', 'visit_Slice') if m_ not in have]
+        chk.ob('R15.10', f'{COL}._colorize_ast_generic :: the two astor visit methods that do not write what was read are overridden', not missing,
+               f'source_generator_class={kw.id} overrides both' if not missing and isinstance(kw, ast.Name) else
+               f'{missing} are astor\'s own: an f-string default is displayed with doubled backslashes / escaped braces, `GRID[(0, 0):(2, 2)]` as `GRID[0, 0:2, 2]` - '
+               'other expressions than the ones written', repo.loc(gen.mod, c))
+    chk.require('R15.10', 7)
 
     # ------------------------------------------------------------------ R15.9
     # `_set_precedence(P, child)` tells the parenthesis decision that `child` sits in a delimited position, so operators down to precedence P are
